@@ -223,7 +223,10 @@ def s_where(*args):
             return sym._elementwise(lambda cc, aa, bb: sym.Ite(cc, aa, bb) if isinstance(cc, SBool) else (aa if cc else bb), _obj(c) if isinstance(c, (list, np.ndarray)) else c, _obj(a) if isinstance(a, (list, np.ndarray)) else a, _obj(b) if isinstance(b, (list, np.ndarray)) else b)
         return np.where(c, a, b)
     if has_sym(args[0]):
-        raise Unsupported("where(cond) with a symbolic condition (data-dependent shape)")
+        c = _obj(args[0])
+        if c.ndim != 1:
+            raise Unsupported("where(cond) with a symbolic condition of dimension != 1")
+        return (np.array([i for i, e in enumerate(c) if bool(e)], dtype=int),)  # one path per outcome of each entry
     return np.where(*args)
 
 
